@@ -71,9 +71,12 @@ def run_case(seed):
         dist[k] = dist.get(k, 0) + 1
 
     geo_stream = 'exact' if rng.random() < 0.8 else 'decimal'
+    nlv, bf, mesh = rng.choice([1, 2, 2, 3, 3]), rng.choice([2, 2, 4]), rng.choice(['blocks', 'chunky', 'chunky'])
+    if random.Random(seed * 389 + 1).random() < 0.2:
+        # boxes of 16 and 24 cells: the occupancy map of the next level is 8 fine cells wide (4 coarse cells per entry)
+        nlv, bf, mesh = 2, 8, 'chunky'
     pf = gen.gen_plotfile(rng, ndims=3, payload='smallints', max_blocks=2, nfields=(1, 4),
-                          nlevels=rng.choice([1, 2, 2, 3, 3]), geo_stream=geo_stream,
-                          bf=rng.choice([2, 2, 4]), mesh=rng.choice(['blocks', 'chunky', 'chunky']))
+                          nlevels=nlv, geo_stream=geo_stream, bf=bf, mesh=mesh)
     if rng.random() < 0.6 and 'volFrac' not in pf.fields:
         pf.fields[rng.randrange(len(pf.fields))] = 'volFrac'
     keys = c01.reader_keys(pf.fields)
@@ -81,6 +84,7 @@ def run_case(seed):
     gen.write_plotfile(pf, path)
     sizes = sorted({h - l + 1 for lev in pf.levels for lo, hi in lev.boxes for l, h in zip(lo, hi)})
     count(f"levels={pf.nlevels}")
+    count(f"smallest box edge={sizes[0]}")
     count(f"geo={pf.meta['geo']}")
     count(f"box_edges={'mixed' if len(sizes) > 1 else 'uniform'}")
     count(f"min_edge_divides_all_corners={all(c % sizes[0] == 0 for lev in pf.levels for lo, hi in lev.boxes for c in list(lo) + [h + 1 for h in hi])}")
